@@ -550,7 +550,7 @@ def build_coverage(results, agg, sim_wall, det_info, conf, known_hits, fixed, re
         'families': dict(agg['families']),
         'faults_fired': dict(sorted(agg['faults'].items())),
         'environment_faults_fired': {k: v for k, v in sorted(agg['probes'].items())
-                                     if k.startswith(('env_entry_damaged', 'enospc_hit', 'source_modified_while'))},
+                                     if k.startswith(('env_entry_damaged', 'enospc_hit', 'source_modified_while', 'scanner_upgraded_while'))},
         'probes': dict(sorted(agg['probes'].items())),
         'distinct_abstract_states': len(agg['states']),
         'abstract_state_rule': 'tuple of (entry state of each of 3 sources: absent/complete|broken x fresh|stale; '
